@@ -17,7 +17,7 @@ DEFAULT_WEIGHTS = {
     "build": 6.0, "attach": 3.0, "remove": 2.5, "bulk_remove": 1.2, "reorder": 1.2,
     "connect": 5.0, "disconnect": 2.0, "bulk_disconnect": 1.0, "reference": 2.0, "top": 0.8,
     "name": 1.5, "data": 1.0, "bundle": 0.6, "orphans": 1.0, "hold": 0.4, "clone": 0.0,
-    "gc": 0.3, "policy": 0.0, "ns": 0.1, "chain": 0.3,
+    "gc": 0.3, "policy": 0.0, "ns": 0.1, "chain": 0.3, "adopt": 0.0,
 }
 
 
@@ -461,6 +461,33 @@ class Gen:
                                    "as_set": self.r.choice([False, True])})
                 return {"op": "set_wire_pins", "on": wh, "pins": refs}
         return None
+
+    def f_adopt(self):
+        """A definition is furnished while it belongs to no library - a port, a cable and a child that share a name or
+        carry identifiers differing in case only (they are separate scopes) - and is then adopted by a library, possibly
+        one under the other naming policy: the adoption has to judge the definition's contents scope by scope."""
+        r = self.r
+        orphans = [d for d in self.all("definition") if d[1].library is None]
+        d = self.pick(orphans)
+        base = r.choice(["sig_A", "x", "Ab", "n1"])
+        if d is None:
+            return {"op": "definition_new", "name": r.choice(["adoptee", "Adoptee", base])}
+        if not d[1].cables:
+            return {"op": "create_cable", "on": d[0], "name": base, "wires": 1}
+        if not d[1].children:
+            return {"op": "create_child", "on": d[0], "name": r.choice([base, base.swapcase()])}
+        lib = self.pick(self.all("library"))
+        cab = self.pick([(self.hd(c), c) for c in d[1].cables if self.hd(c)])
+        kid = self.pick([(self.hd(c), c) for c in d[1].children if self.hd(c)])
+        if lib is None or cab is None or kid is None:
+            return None
+        self.w.count("probe.adopt_furnished_orphan")
+        key = r.choice(["EDIF.identifier", "EDIF.identifier", ".NAME"])
+        self.queue.append({"op": "data_set", "on": kid[0], "key": key, "v": r.choice([base, base.swapcase(), base.lower()])})
+        if r.random() < 0.5:
+            self.queue.append({"op": "policy", "v": r.choice(["DEFAULT", "EDIF"])})
+        self.queue.append({"op": "add_definition", "on": lib[0], "x": d[0]})
+        return {"op": "data_set", "on": cab[0], "key": key, "v": base}
 
     # -- instances --------------------------------------------------------------------
     @staticmethod
